@@ -616,6 +616,17 @@ func main() {
 				rates = append(rates, &RateScenario{Engine: engine, Lim: Limits{0, 2, 0, 2, 0}, Conns: 3, KeepAlive: true, Plan: plan, Trust: tc})
 			}
 		}
+		// one client address, many connections, requests that overlap inside the limiter for a couple of seconds: the
+		// bucket decides AND deducts in one step, so overlapping requests cannot spend the same token
+		for _, engine := range []string{"sherpa", "olla"} {
+			for _, l := range []Limits{{0, 60000, 0, 1, 0}, {0, 30000, 0, 2, 0}, {90000, 60000, 0, 1, 0}, {0, 120000, 0, 1, 0}, {0, 60000, 0, 3, 0}} {
+				var plan []PlanItem
+				for i := 0; i < 32*150; i++ {
+					plan = append(plan, PlanItem{i % 32, "proxy"})
+				}
+				rates = append(rates, &RateScenario{Engine: engine, Lim: l, Conns: 32, KeepAlive: true, Concurrent: true, Plan: plan})
+			}
+		}
 		grid := []Limits{{0, 2, 0, 2, 0}, {0, 1, 0, 1, 0}, {0, 3, 0, 2, 0}, {0, 6, 0, 3, 0}, {0, 2, 0, 5, 0}, {3, 2, 0, 2, 0}, {2, 5, 0, 1, 0}, {4, 0, 0, 2, 0}, {0, 4, 1, 2, 0}}
 		mixes := [][]string{{"proxy"}, {"proxy", "provider"}, {"proxy", "provider", "health"}, {"anthropic"}, {"proxy", "anthropic", "provider"}}
 		for _, l := range grid {
